@@ -447,9 +447,9 @@ func ChildMain() {
 	wg.Wait()
 	// large phase: concurrent callers on one connection with requests/responses of 63 KiB - 1 MiB
 	if len(BigFuncNames) > 0 && os.Getenv("VERIF_E2E_LARGE") != "0" {
-		lp := &LargePhase{Seed: smallSeed(rng), Callers: 12, Calls: 24, Huge: 60}
+		lp := &LargePhase{Seed: smallSeed(rng), Callers: 24, Calls: 24, Huge: 60}
 		if o.Thorough() {
-			lp.Callers, lp.Calls, lp.Huge = 24, 40, 25
+			lp.Callers, lp.Calls, lp.Huge = 32, 60, 25
 		}
 		if pool > 0 {
 			lp.Callers, lp.Calls = 8, 12
@@ -502,10 +502,10 @@ type Case struct {
 	Scenario *Scenario `json:"scenario,omitempty"`
 	// large phase (big.go): the whole phase is re-run on replay (the values follow from the seed;
 	// the interleaving of the callers does not, so a replay repeats the phase a few times)
-	Large *LargePhase `json:"large,omitempty"`
-	Big   *BigSpec    `json:"big,omitempty"`
-	GenSeed  int64     `json:"gen_seed,omitempty"`
-	GenTier  string    `json:"gen_tier,omitempty"`
+	Large   *LargePhase `json:"large,omitempty"`
+	Big     *BigSpec    `json:"big,omitempty"`
+	GenSeed int64       `json:"gen_seed,omitempty"`
+	GenTier string      `json:"gen_tier,omitempty"`
 }
 
 func judgeAll(o *common.Opts, res *common.Result, fcfg FilterCfg, pool int, recs []*Record, scens []scenRun, taps []*Tap) {
